@@ -386,11 +386,12 @@ def htmlExpected (hl : Int → Int) (els : List HElem) : MdDoc :=
     tables := (hTables els).map fun t => some (t.map (List.map (normCell .html)))
     paras := hParas els }
 
-/-- every table is rectangular (plain cells; tables with `colspan`/`rowspan` are the recorded
-finding `C15/table-shape-merged-html`) and no cell contains a backslash -/
+/-- every table is rectangular.  An `HElem` table is the grid `ToMarkdown` writes (`HSrc.view`):
+for the reader's own elements — cells with any `colspan`/`rowspan` — this always holds
+(Props/C15DocHtml.lean, `htmlCells_view`; until fix 72cc329 tables with spans were the recorded
+finding `C15/table-shape-merged-html`).  The cells are any bytes, backslashes included. -/
 def HtmlCells (els : List HElem) : Prop :=
-  ∀ hdr rest, HElem.table (some (hdr :: rest)) ∈ els →
-    Tabula.C15.Rect hdr.length (hdr :: rest) ∧ Tabula.C15.NoBackslash (hdr :: rest)
+  ∀ hdr rest, HElem.table (some (hdr :: rest)) ∈ els → Tabula.C15.Rect hdr.length (hdr :: rest)
 
 theorem hTables_mem (els : List HElem) (t : List (List Str)) (h : t ∈ hTables els) :
     ∃ hdr rest, t = hdr :: rest ∧ HElem.table (some (hdr :: rest)) ∈ els := by
@@ -418,7 +419,7 @@ theorem html_tables_read (hl : Int → Int) (els : List HElem) (hwf : HtmlWF hl 
   apply List.map_congr_left
   intro t ht
   obtain ⟨hdr, rest, rfl, hm⟩ := hTables_mem els t ht
-  obtain ⟨hrect, hbs⟩ := hcells hdr rest hm
+  have hrect := hcells hdr rest hm
   have hne := hwf.rows hdr rest hm
   have hlen : 1 ≤ hdr.length := by
     have := hne hdr (by simp)
@@ -429,7 +430,7 @@ theorem html_tables_read (hl : Int → Int) (els : List HElem) (hwf : HtmlWF hl 
   show gfmTableL (htmlTableLines hdr rest) = _
   rw [gfmTableL_of_joined _ (fun l hl' => (hprops l hl').2) (by simp [htmlTableLines]),
     show joinLines (htmlTableLines hdr rest) = render .html (hdr :: rest) from (render_html_lines hdr rest).symm]
-  exact Tabula.C15.table_roundtrip .html hdr.length hlen (hdr :: rest) (by simp) hrect hbs
+  exact Tabula.C15.table_roundtrip_any .html hdr.length hlen (hdr :: rest) (by simp) hrect
 
 theorem readMd_unlines_dropEmpty (U : List Str) (hnl : ∀ l ∈ U, 10 ∉ l) (hhr : hrLine ∉ U) :
     readMd (unlines (dropEmpty U)) = readLines U := by
